@@ -26,5 +26,6 @@ req = json.load(sys.stdin)
 out = []
 for M in req['sets']:
     has = HasPatcher(M)
-    out.append(''.join(('1' if getattr(has, p) else '0') if hasattr(has, p) else '-' for p in PRED) + '/' + ''.join('1' if covers(has, m) else '0' for m in req['doc_markers']))
+    out.append(''.join(('1' if getattr(has, p) else '0') if hasattr(has, p) else '-' for p in PRED) + '/' + ''.join('1' if covers(has, m) else '0' for m in req['doc_markers'])
+               + '/' + ''.join('1' if covers(has, m) else '0' for m in getattr(_rules.CheckMarkers, 'aliases', {})))
 json.dump(out, sys.stdout)
